@@ -56,20 +56,23 @@ fn rfc_encode(data: &[u8]) -> Vec<u8> {
 }
 
 // ---------------------------------------------------------------------------------------------
-// the underlying reader: a schedule of per-call maxima (0 = Interrupted), then unrestricted
+// the underlying reader: a schedule of per-call maxima (0 = Interrupted), then at most `tail` bytes per call
+// for ever (tail = 0: unrestricted)
 // ---------------------------------------------------------------------------------------------
 
 struct SchedReader {
     data: Vec<u8>,
     pos: usize,
     sched: Vec<usize>,
+    tail: usize,
     call: usize,
 }
 
 impl Read for SchedReader {
     fn read(&mut self, buf: &mut [u8]) -> std::io::Result<usize> {
         let max = match self.sched.get(self.call) {
-            None => usize::MAX,
+            None if self.tail == 0 => usize::MAX,
+            None => self.tail,
             Some(0) => {
                 self.call += 1;
                 return Err(std::io::Error::from(std::io::ErrorKind::Interrupted));
@@ -131,8 +134,9 @@ struct DecRun {
 
 /// read with buffer sizes taken cyclically from `pattern` until end of input (a non-empty buffer gets
 /// `Ok(0)`), an error or a panic; then `extra` further reads (what the decoder does after the end).
-fn run_decoder(text: &[u8], sched: &[usize], pattern: &[usize], extra: usize) -> DecRun {
-    let mut dec = Base64Decoder::new(SchedReader { data: text.to_vec(), pos: 0, sched: sched.to_vec(), call: 0 });
+fn run_decoder(text: &[u8], sched: &Sched, pattern: &[usize], extra: usize) -> DecRun {
+    let mut dec =
+        Base64Decoder::new(SchedReader { data: text.to_vec(), pos: 0, sched: sched.0.clone(), tail: sched.1, call: 0 });
     let mut run = DecRun { sizes: vec![], trace: vec![], bytes: vec![], end: End::Pending };
     let cap = 4 * text.len() + 64;
     let mut after = 0usize;
@@ -181,6 +185,9 @@ fn run_decoder(text: &[u8], sched: &[usize], pattern: &[usize], extra: usize) ->
     }
     run
 }
+
+/// (per-call maxima, tail)
+type Sched = (Vec<usize>, usize);
 
 fn csv(xs: &[usize]) -> String {
     if xs.is_empty() {
@@ -250,9 +257,9 @@ impl Ctx {
     }
 
     /// `plain`: `Some(d)` when `text` is the RFC encoding of `d` (round-trip obligation), `None` for arbitrary text
-    fn dec_case(&mut self, kind: &str, text: &[u8], plain: Option<&[u8]>, sched: &[usize], pattern: &[usize]) {
+    fn dec_case(&mut self, kind: &str, text: &[u8], plain: Option<&[u8]>, sched: &Sched, pattern: &[usize]) {
         let run = run_decoder(text, sched, pattern, 2);
-        let req = format!("c14 dec {} {} {}", hex(text), csv(sched), csv(&run.sizes));
+        let req = format!("c14 dec {} {} {} {}", hex(text), csv(&sched.0), sched.1, csv(&run.sizes));
         let ans = if run.trace.is_empty() { "-".to_string() } else { run.trace.join(",") };
         self.out.case(&req, !text.is_empty());
         for k in kind.split(',') {
@@ -268,8 +275,8 @@ impl Ctx {
         if self.seen.insert(req.clone()) {
             self.out.corr(&req, &ans);
         }
-        let interrupts = sched.contains(&0);
-        let input = json!({"op": "dec", "text": hex(text), "plain": plain.map(hex), "sched": sched, "sizes": pattern});
+        let interrupts = sched.0.contains(&0);
+        let input = json!({"op": "dec", "text": hex(text), "plain": plain.map(hex), "sched": sched.0, "tail": sched.1, "sizes": pattern});
         if run.end == End::Panic {
             self.out.fail("Base64Decoder panics", input, json!("no panic"), json!(ans));
         } else if let Some(d) = plain {
@@ -301,17 +308,17 @@ fn random_bytes(rng: &mut Rng, n: usize) -> Vec<u8> {
     (0..n).map(|_| rng.next() as u8).collect()
 }
 
-fn schedules(rng: &mut Rng, text_len: usize, thorough: bool) -> Vec<(&'static str, Vec<usize>)> {
+fn schedules(rng: &mut Rng, text_len: usize, thorough: bool) -> Vec<(&'static str, Sched)> {
     let n = text_len + 8;
-    let mut v: Vec<(&'static str, Vec<usize>)> = vec![("sched=all", vec![])];
+    let mut v: Vec<(&'static str, Sched)> = vec![("sched=all", (vec![], 0))];
     for (name, k) in [("sched=1", 1usize), ("sched=2", 2), ("sched=3", 3), ("sched=4", 4), ("sched=5", 5), ("sched=7", 7), ("sched=64", 64)] {
-        v.push((name, vec![k; n.div_ceil(k.min(4)) + 8]));
+        v.push((name, (vec![], k)));
     }
-    v.push(("sched=random", (0..n).map(|_| 1 + rng.below(5) as usize).collect()));
-    v.push(("sched=interrupts", (0..n + n / 2).map(|_| rng.below(4) as usize).collect()));
+    v.push(("sched=random", ((0..n).map(|_| 1 + rng.below(5) as usize).collect(), 1 + rng.below(3) as usize)));
+    v.push(("sched=interrupts", ((0..n + n / 2).map(|_| rng.below(4) as usize).collect(), rng.below(3) as usize)));
     if thorough {
-        v.push(("sched=random", (0..n).map(|_| 1 + rng.below(9) as usize).collect()));
-        v.push(("sched=short-then-all", (0..rng.below(n as u64 + 1) as usize).map(|_| 1 + rng.below(3) as usize).collect()));
+        v.push(("sched=random", ((0..n).map(|_| 1 + rng.below(9) as usize).collect(), rng.below(9) as usize)));
+        v.push(("sched=short-then-all", ((0..rng.below(n as u64 + 1) as usize).map(|_| 1 + rng.below(3) as usize).collect(), 0)));
     }
     v
 }
@@ -450,13 +457,14 @@ fn replay(ctx: &mut Ctx, input: &Value) {
             if pattern.is_empty() {
                 pattern.push(1);
             }
-            ctx.dec_case("replay", &text, plain.as_deref(), &usizes(&input["sched"]), &pattern);
+            let sched: Sched = (usizes(&input["sched"]), input["tail"].as_u64().unwrap_or(0) as usize);
+            ctx.dec_case("replay", &text, plain.as_deref(), &sched, &pattern);
         }
         _ => {}
     }
 }
 
-const RULE: &str = "encoder: every length 0..=L (L = 200 quick / 400 thorough) of random bytes plus all-sextet / all-byte covering data, each in the partitions whole, 1, 2, 4 and random cuts (empty chunks included); decoder round trip: RFC text of the same data x reader schedules {unrestricted, 1, 2, 3, 4, 5, 7, 64 per call, random 1..5, random with Interrupted} x destination sizes {1, 2, 3, 63, 64, 65, 4096, random mix incl. 0} (full product up to length 400, two data per white-box length 0-4, 46-50, 62-67, 83-86, 93-97, 125-128, 189-192; a rotating quarter of the product for the long random data of the thorough tier); malformed: random bytes, alphabet-only text of every length mod 4, stray padding, damaged valid text, padded groups in mid-stream (reaches buffer sizes 61, 62, 64); non-trivial = non-empty data/text; distinct by request line";
+const RULE: &str = "encoder: every length 0..=L (L = 200 quick / 400 thorough) of random bytes plus all-sextet / all-byte covering data, each in the partitions whole, 1, 2, 4 and random cuts (empty chunks included); decoder round trip: RFC text of the same data x reader schedules {unrestricted, 1, 2, 3, 4, 5, 7, 64 per call for ever, random 1..5 per call, random with Interrupted} x destination sizes {1, 2, 3, 63, 64, 65, 4096, random mix incl. 0} (full product up to length 400, two data per white-box length 0-4, 46-50, 62-67, 83-86, 93-97, 125-128, 189-192; a rotating quarter of the product for the long random data of the thorough tier); malformed: random bytes, alphabet-only text of every length mod 4, stray padding, damaged valid text, padded groups in mid-stream (reaches buffer sizes 61, 62, 64); non-trivial = non-empty data/text; distinct by request line";
 
 fn main() {
     let cfg = Cfg::from_env();
